@@ -96,7 +96,7 @@ def jacIO {F : Type} (io : Codec' F) : Codec' (Jac F) where
     | _ => none
   shw p := io.shw p.x ++ "/" ++ io.shw p.y ++ "/" ++ io.shw p.z
 
-def affIO {F : Type} [FieldOps F] (io : Codec' F) : Codec' (Aff F) where
+def affIO {F : Type} [Zero F] [One F] (io : Codec' F) : Codec' (Aff F) where
   parse s := if s == "inf" then some Aff.zero else
     match s.splitOn "/" with
     | [x, y] => do let x ← io.parse x; let y ← io.parse y; pure ⟨x, y, false⟩
@@ -119,7 +119,7 @@ def bad : String := "BAD-CASE"
 
 /-! ### field ops shared by all levels -/
 
-def fieldOp {F : Type} [FieldOps F] [DecidableEq F] (io : Codec' F) (op : String) (args : List String) : Option String :=
+def fieldOp {F : Type} [Add F] [Sub F] [Mul F] [Neg F] [Zero F] [One F] [FieldOps F] [DecidableEq F] (io : Codec' F) (op : String) (args : List String) : Option String :=
   match op, args with
   | "add", [a, b] => do let a ← io.parse a; let b ← io.parse b; pure (io.shw (a + b))
   | "sub", [a, b] => do let a ← io.parse a; let b ← io.parse b; pure (io.shw (a - b))
@@ -152,7 +152,7 @@ def orElse' (a : Option String) (b : Unit → Option String) : Option String :=
 
 /-! ### group-level ops, generic in the coefficient field -/
 
-structure GroupCtx (F : Type) [FieldOps F] [DecidableEq F] [SqrtOps F] where
+structure GroupCtx (F : Type) [Add F] [Sub F] [Mul F] [Neg F] [Zero F] [One F] [FieldOps F] [DecidableEq F] [SqrtOps F] where
   io : Codec' F
   cc : Codec F
   rc : WnafRec
@@ -166,7 +166,7 @@ structure GroupCtx (F : Type) [FieldOps F] [DecidableEq F] [SqrtOps F] where
   map2To : F → F → Option (Jac F)
 
 section
-variable {F : Type} [FieldOps F] [DecidableEq F] [SqrtOps F]
+variable {F : Type} [Add F] [Sub F] [Mul F] [Neg F] [Zero F] [One F] [FieldOps F] [DecidableEq F] [SqrtOps F]
 
 /-- canonical observation of a projective result: its affine form -/
 def showJac (g : GroupCtx F) (p : Jac F) : String :=
